@@ -27,6 +27,8 @@ RULES = {
     "C19-d": "AGREE: one path variable is written, tested, read, stored and yielded by Write.run",
     "C19-f": "template freshness: the default jinja environment keeps reloading changed templates (auto_reload not disabled)",
     "C19-e": "MakeFilename: existing names are replaced only under overwrite; prefix and suffix are deleted after use",
+    "C19-g": "ABSENT FLAG: LaTeXToPDF, which follows Write, does not take a missing output.changed for 'unchanged': it compares the "
+             "modification times of the .tex and the .pdf (or assumes a change)",
 }
 WRITE = "lena.output.write"
 
@@ -517,7 +519,72 @@ def check_template_freshness(ctx):
         ctx.ok("C19-f", (mod.name, "<module>"), "no auto_reload=False in the default jinja environment")
 
 
+def check_absent_flag(ctx):
+    """Write.run leaves output.changed unset when it creates a file that did not exist (known finding C19-a).  The converter
+    that follows it must therefore decide the missing-flag case from the files themselves: tex newer than pdf => changed,
+    no pdf => changed.  Reading the flag with a falsy default turns 'new .tex, old .pdf' into a stale plot."""
+    res = ctx.res
+    fn = ctx.tree.func("lena.output.latex_to_pdf", "LaTeXToPDF.run")
+    loop = main_loop(ctx, fn)
+    if not ctx.require(loop is not None, "C19-g", fn, "LaTeXToPDF.run: main loop not found"):
+        return
+    reads = []
+    for n in A.walk_local(loop):
+        if isinstance(n, ast.Call) and isinstance(n.func, ast.Attribute) and n.func.attr == "get" and n.args and A.const(n.args[0]) == "changed":
+            reads.append(("get", n))
+        elif isinstance(n, ast.Subscript) and isinstance(n.ctx, ast.Load) and A.const(n.slice) == "changed":
+            reads.append(("item", n))
+    if not ctx.require(reads, "C19-g", loop, "LaTeXToPDF.run does not read output.changed"):
+        return
+    for kind, n in reads:
+        if kind == "get":
+            d = n.args[1] if len(n.args) > 1 else ast.Constant(value=None)
+            falsy = isinstance(d, ast.Constant) and not d.value
+            ctx.check("C19-g", not falsy, n, "LaTeXToPDF.run reads the flag as `%s`: a missing output.changed is taken for 'unchanged', but "
+                      "Write leaves the flag unset for a file it has just created -- a rewritten .tex next to an old .pdf is then not "
+                      "converted again (stale plot)" % A.short(n, 50), detail="missing flag is not defaulted to a falsy constant",
+                      construct="absent-flag-falsy-default")
+            continue
+        tr = A.enclosing(n, ast.Try)
+        hs = [h for h in (tr.handlers if tr is not None and any(n in list(ast.walk(b)) for b in tr.body) else [])
+              if h.type is not None and res.canon(h.type) in ("builtins.KeyError", "builtins.LookupError", "builtins.Exception")]
+        if not ctx.check("C19-g", bool(hs), n, "LaTeXToPDF.run reads output['changed'] without handling its absence (KeyError for a value "
+                         "written by a Write that created the file)", detail="absence of the flag handled", construct="absent-flag-unhandled"):
+            continue
+        # on every path through the handler, the local that holds the flag ends up True or derived from getmtime of two files
+        par = A.parent(n)
+        var = par.targets[0].id if isinstance(par, ast.Assign) and isinstance(par.targets[0], ast.Name) else None
+        if not ctx.require(var is not None, "C19-g", n, "the flag is not read into a local"):
+            continue
+        n_h = 0
+        for q in P.paths_through(hs[0].body):
+            n_h += 1
+            defs = [x for x in q.stmts() if isinstance(x, ast.Assign) and any(isinstance(t, ast.Name) and t.id == var for t in x.targets)]
+            ok = bool(defs)
+            if ok:
+                v = defs[-1].value
+                if isinstance(v, ast.Constant):
+                    ok = v.value is True
+                else:
+                    times = [c for c in ast.walk(v) if isinstance(c, ast.Name)]
+                    srcs = set()
+                    for nm in times:
+                        dd = [x for x in q.stmts() if isinstance(x, ast.Assign) and any(isinstance(t, ast.Name) and t.id == nm.id for t in x.targets)]
+                        for x in dd:
+                            if isinstance(x.value, ast.Call) and res.canon(x.value.func) in ("os.path.getmtime", "os.stat"):
+                                srcs.add(A.src(x.value.args[0]) if x.value.args else "?")
+                    for c in ast.walk(v):
+                        if isinstance(c, ast.Call) and res.canon(c.func) in ("os.path.getmtime", "os.stat") and c.args:
+                            srcs.add(A.src(c.args[0]))
+                    ok = isinstance(v, ast.Compare) and len(srcs) == 2
+            ctx.check("C19-g", ok, hs[0], "LaTeXToPDF.run: when output.changed is missing [%s] the flag becomes `%s`, not True or a comparison "
+                      "of the modification times of the .tex and the .pdf" % (q.describe(3), A.short(defs[-1].value, 40) if defs else "<unset>"),
+                      detail="missing flag => newer-than comparison or True [%s]" % q.describe(2), construct="absent-flag-path:%s" % q.describe(2), path=q)
+        ctx.instances_floor("C19-g", n_h, 2, "paths through the missing-flag handler of LaTeXToPDF.run")
+
+
 def check(ctx):
+    check_absent_flag(ctx)
     check_template_freshness(ctx)
     check_write(ctx)
     check_converter(ctx, "lena.output.latex_to_pdf", "LaTeXToPDF.run", {"launch"}, "pdf")
@@ -527,6 +594,8 @@ def check(ctx):
 
 
 VARIANTS = [
+    M("latex-missing-flag-unchanged", "lena/output/latex_to_pdf.py", "            try:\n                changed = outputc[\"changed\"]\n            except KeyError:\n                # if context.output.changed is missing, we compare times\n                # for tex and pdf files.\n                try:\n                    pdf_time = os.path.getmtime(data)\n                except os.error:\n                    # probably changed won't be used, but anyway\n                    changed = True\n                else:\n                    tex_time = os.path.getmtime(texfile_name)\n                    changed = tex_time > pdf_time", "            changed = outputc.get(\"changed\", False)", ["C19-g"]),
+    M("latex-missing-flag-handler-false", "lena/output/latex_to_pdf.py", "                    tex_time = os.path.getmtime(texfile_name)\n                    changed = tex_time > pdf_time", "                    changed = False", ["C19-g"]),
     M("overwrite-no-flag", "lena/output/write.py", "                    self._write_data(filepath, data)\n                    outputc[\"changed\"] = True\n                    yield (filepath, context)\n                    continue",
       "                    self._write_data(filepath, data)\n                    yield (filepath, context)\n                    continue", ["C19-a"]),
     M("differs-no-flag", "lena/output/write.py", "                if data != existing_data:\n                    self._write_data(filepath, data)\n                    outputc[\"changed\"] = True",
